@@ -124,7 +124,54 @@ def random_case(prop, rng, tier):
     searches = []
     for _ in range(3):
         searches.append([rnd_time(rng, rng.choice(bs) if bs else None), rng.choice([1, -1]), rng.choice([0, 1, 2, 3, 7, 8, 15, 30])])
-    return {'expr': expr, 'q': qs, 'search': searches, 'floats': rng.random() < 0.5}
+    case = {'expr': expr, 'q': qs, 'search': searches, 'floats': rng.random() < 0.5}
+    if not bad and rng.random() < 0.3:
+        # the calendar changes after it has been queried (dated entries added through set_units, or the resource is given another
+        # calendar): the same resource object must follow it
+        if rng.random() < 0.5 and first_dated(expr) is not None:
+            days = [q for q in qs if rng.random() < 0.4][:4] + [rnd_time(rng)]
+            # powers of two only: the dated calendar may be a divisor (ints and floats divide exactly by them, see rnd_expr)
+            case['late'] = ['set_units', [[d, rng.choice(['0', '2', '4', '1/2', '8'])] for d in days]]
+        else:
+            case['late'] = ['replace', rnd_expr(rng, rng.randint(0, 2), False)]
+    return case
+
+
+def first_dated(expr, path=()):
+    """path (tuple of 2/3 indices) to the first dated calendar of an expression"""
+    if expr[0] == 'D':
+        return path
+    if expr[0] == 'op':
+        for i in (2, 3):
+            r = first_dated(expr[i], path + (i,))
+            if r is not None:
+                return r
+    return None
+
+
+def late_expr(case):
+    """the definition the calendar has after the late change: for set_units the first dated calendar with the new entries (one value
+    per day - set_units stores by day - a later entry replacing an earlier one for the same day)"""
+    kind, arg = case['late']
+    if kind == 'replace':
+        return arg
+    import copy
+    expr = copy.deepcopy(case['expr'])
+    node = expr
+    for i in first_dated(expr):
+        node = node[i]
+    items = {}
+    for t, v in node[1]:
+        items[(t // DAY_US) * DAY_US] = v
+    given = {}
+    for t, v in arg:                 # the dict handed to set_units: equal datetimes collapse (first position, last value) ...
+        given[t] = v
+    for t, v in given.items():       # ... and set_units stores them by day, in that order
+        items[(t // DAY_US) * DAY_US] = v
+    node[1] = [[t, v] for t, v in items.items()]
+    if len(node) > 2:
+        node[2] = len(node[1])
+    return expr
 
 
 def extra_cases(prop, tier, seed):
@@ -143,7 +190,8 @@ def extra_cases(prop, tier, seed):
 
 # ------------------------------------------------------------------ execution on the real code
 
-def build_impl(expr, floats):
+def build_impl(expr, floats, dated=None):
+    """`dated` (a list) collects the DirectCalendar objects in expression order"""
     import pjplan.calendar as C
     k = expr[0]
     opt = lambda us: None if us is None else from_us(us)
@@ -156,13 +204,15 @@ def build_impl(expr, floats):
         cal = C.DirectCalendar({from_us(t): py_num(v, floats) for t, v in expr[1][:k]})
         if k < len(expr[1]):
             cal.set_units({from_us(t): py_num(v, floats) for t, v in expr[1][k:]})
+        if dated is not None:
+            dated.append(cal)
         return cal
     if k == 'F':
         return C.FixedCalendar(py_num(expr[1], floats), opt(expr[2]), opt(expr[3]))
     if k == 'N':
         return py_num(expr[1], floats)
-    a = build_impl(expr[2], floats)
-    b = build_impl(expr[3], floats)
+    a = build_impl(expr[2], floats, dated)
+    b = build_impl(expr[3], floats, dated)
     op = expr[1]
     if op == 'add':
         return a + b
@@ -187,7 +237,8 @@ def execute(prop, case):
     rec = {'fam': 'cal', 'expr': case['expr']}
     cal = None
     try:
-        cal = build_impl(case['expr'], case.get('floats', False))
+        dated = []
+        cal = build_impl(case['expr'], case.get('floats', False), dated)
         rec['build'] = ['ok', None]
     except Exception as e:  # noqa
         rec['build'] = ['err', classify_exc(e)]
@@ -206,6 +257,29 @@ def execute(prop, case):
                 rec['search'].append([t, d, Hm, obs(lambda: res.get_nearest_availability_date(from_us(t), d), to_us)])
             else:
                 rec['search'].append([t, d, H, obs(lambda: res.get_nearest_availability_date(from_us(t), d, max_days=H), to_us)])
+        if case.get('late') and dated is not None:
+            fl = case.get('floats', False)
+            try:
+                if case['late'][0] == 'set_units':
+                    dated[0].set_units({from_us(t): py_num(v, fl) for t, v in case['late'][1]})
+                else:
+                    try:
+                        new_cal = build_impl(case['late'][1], fl)
+                    except RuntimeError:
+                        new_cal = None           # the replacement definition is itself rejected (division by zero, ...): no second phase
+                    if new_cal is None:
+                        return rec
+                    res.calendar = new_cal
+                late = {'fam': 'cal', 'expr': late_expr(case), 'build': ['ok', None], 'q': [], 'cap': [], 'search': []}
+                for t in case['q']:
+                    late['cap'].append([t, obs(lambda: res.get_available_units(from_us(t)), frac_str)])
+                    late['q'].append([t, obs(lambda: res.calendar.get_available_units(from_us(t)), frac_str)])
+                for t, d, H in case['search']:
+                    if H is not None:
+                        late['search'].append([t, d, H, obs(lambda: res.get_nearest_availability_date(from_us(t), d, max_days=H), to_us)])
+                rec['late'] = late
+            except Exception as e:  # noqa
+                rec['late'] = {'error': classify_exc(e)}
     return rec
 
 
@@ -234,6 +308,28 @@ def judge(prop, case, rec, out):
                 eq = False
                 info.setdefault('search', []).append({'t': t, 'dir': d, 'H': H, 'impl': iv, 'model': mv})
     mon = dict(out['mon'])
+    late = rec.get('late')
+    if late is not None:
+        if 'error' in late:
+            eq = False
+            info['late'] = late
+        else:
+            lo = common.run_driver([dict(late, id=0)])[0]
+            lm = lo['model']
+            same = lm['build'][0] == 'ok'
+            for name in ('q', 'cap'):
+                for (t, iv), mv in zip(late[name], lm[name]):
+                    if iv != mv:
+                        same = False
+                        info.setdefault('late_' + name, []).append({'t': t, 'impl': iv, 'model': mv})
+            for (t, d, H, iv), mv in zip(late['search'], lm['search']):
+                if canon_time(iv) != canon_time(mv):
+                    same = False
+                    info.setdefault('late_search', []).append({'t': t, 'dir': d, 'H': H, 'impl': iv, 'model': mv})
+            eq = eq and same
+            # the statement's clauses, judged on what the same resource object reports after the change
+            for k, v in lo['mon'].items():
+                mon[k] = mon.get(k, True) and v
     has_op = case['expr'][0] == 'op'
     defined = any(v[0] == 'ok' and v[1] is not None for _, v in rec['q'])
     nontrivial = (has_op and defined) or rec['build'][0] == 'err'
@@ -242,13 +338,17 @@ def judge(prop, case, rec, out):
 
 def mutate(prop, case, rng):
     c = {'expr': case['expr'], 'q': list(case['q']), 'search': [list(s) for s in case['search']], 'floats': case.get('floats', False)}
+    if case.get('late'):
+        c['late'] = case['late']
     r = rng.random()
     if r < 0.4:
         c['q'] = sorted(set(c['q'] + [rnd_time(rng) for _ in range(8)] + [q + rng.choice([-1, 1, DAY_US, -DAY_US]) for q in c['q'][:8]]))[:40]
     elif r < 0.7:
         c['search'] = c['search'] + [[rnd_time(rng), rng.choice([1, -1]), rng.choice([0, 1, 2, 5, 9, 40])] for _ in range(4)]
     else:
-        c['expr'] = ['op', rng.choice(['add', 'sub', 'mul', 'div', 'or']), c['expr'], rnd_expr(rng, 1, rng.random() < 0.3)]
+        op = rng.choice(['add', 'sub', 'mul', 'div', 'or'])
+        c['expr'] = ['op', op, c['expr'], rnd_expr(rng, 1, rng.random() < 0.3, op == 'div')]
+        c.pop('late', None)
     return c
 
 
